@@ -288,6 +288,8 @@ class Ctx:
         try:
             import checks
             cov["rule"] = checks.RULES.get(self.prop, "")
+            if not self.assumptions:
+                self.assumptions = list(checks.ASSUMPTIONS)
         except Exception:
             pass
         cov["checker_cmd"] = "bin/check %s --tier %s" % (self.prop, self.tier)
